@@ -14,14 +14,16 @@ Local Open Scope N_scope.
    (1) every literal the printer writes is read back as the value it was written from,
    (2) every type reference the printer shortens resolves, from the scope it is printed in, to the
        type it was written for.
-   (1) is proved for all inputs. (2) is stated here for ALL symbol tables and is false for the code
-   as it is (nested types that shadow, package names that are captured): proved under the explicit
-   no-capture hypotheses, refuted by concrete tables without them. The layers above (layout of
+   (1) is proved for all inputs. (2) is proved for ALL symbol tables and all nestings for the printer
+   as it is now (fix bb3e43d: captured names are printed with a leading dot); wf_target only says that
+   the referenced type and its enclosing messages are in the table and its package is visible. For the
+   printer before that fix it holds under explicit no-capture hypotheses and is refuted without them
+   (kept below as the ..._previous_... theorems). The layers above (layout of
    elements, comments, whitespace, the option tree as a whole) are exercised by the round-trip
    oracle on the real printer and parser, they are not modelled: character layer partial. *)
 Definition C05_scope_full_statement : Prop :=
-  forall st pkg ctx ref_pkg ref, ref <> [] -> is_type st (ref_pkg ++ ref) = true ->
-    resolve st pkg ctx (context_ref_name pkg ctx ref_pkg ref) = Some (ref_pkg ++ ref).
+  forall st pkg ctx ref_pkg ref, ref <> [] -> wf_target st pkg ref_pkg ref ->
+    resolve_printed st pkg ctx (context_ref_name_safe st pkg ctx ref_pkg ref) = Some (ref_pkg ++ ref).
 
 (* ---- (1) literal layer: inverse pairs, for all byte strings / integers ---------------------- *)
 Theorem C05_string_literal_roundtrip : forall s,
@@ -62,41 +64,53 @@ Proof. exact split_join_dot. Qed.
 Print Assumptions C05_dotted_name_roundtrip.
 
 (* ---- (2) scope shortening ---------------------------------------------------------------------- *)
-(* a shortened relative name resolves to the same full name from that scope, if no type nested in
-   an inner scope has the name the shortened reference starts with *)
-Theorem C05_scope_same_package_partial : forall st pkg ctx ref,
+(* the name the printer writes resolves, from the scope it is written in, to the type it stands for *)
+Theorem C05_scope_full : C05_scope_full_statement.
+Proof. exact scope_lemma_full. Qed.
+Print Assumptions C05_scope_full.
+
+(* the printer before fix bb3e43d (context_ref_name): a shortened relative name resolves to the same
+   full name from that scope, if no type nested in an inner scope has the name it starts with *)
+Theorem C05_scope_same_package_previous_partial : forall st pkg ctx ref,
   ref <> [] -> wf_ref st pkg ref -> no_capture st pkg ctx ref ->
   resolve st pkg ctx (context_ref_name pkg ctx pkg ref) = Some (pkg ++ ref).
 Proof. exact scope_lemma_same_package. Qed.
-Print Assumptions C05_scope_same_package_partial.
+Print Assumptions C05_scope_same_package_previous_partial.
 
-Theorem C05_scope_other_package_partial : forall st pkg ctx ref_pkg ref first prest,
+Theorem C05_scope_other_package_previous_partial : forall st pkg ctx ref_pkg ref first prest,
   ref_pkg = first :: prest -> ref <> [] -> qname_eqb pkg ref_pkg = false ->
   In ref_pkg (st_pkgs st) -> is_type st (ref_pkg ++ ref) = true ->
   no_capture_pkg st pkg ctx first ->
   resolve st pkg ctx (context_ref_name pkg ctx ref_pkg ref) = Some (ref_pkg ++ ref).
 Proof. exact scope_lemma_other_package. Qed.
-Print Assumptions C05_scope_other_package_partial.
+Print Assumptions C05_scope_other_package_previous_partial.
 
 (* without the hypotheses: a nested type shadows the top-level type of the same name *)
-Theorem C05_scope_shadow_refuted :
+Theorem C05_scope_shadow_previous_refuted :
   context_ref_name pkg_w [nA] pkg_w [nB] = [nB]
   /\ resolve shadow_table pkg_w [nA] [nB] = Some (pkg_w ++ [nA; nB])
   /\ pkg_w ++ [nA; nB] <> pkg_w ++ [nB].
 Proof. exact shadow_refuted. Qed.
-Print Assumptions C05_scope_shadow_refuted.
+Print Assumptions C05_scope_shadow_previous_refuted.
 
 (* ... and a package whose first component names the file's own sub-package is captured *)
-Theorem C05_scope_cross_package_refuted :
+Theorem C05_scope_cross_package_previous_refuted :
   context_ref_name [svc; v1; svc] [nB] [svc; v1] [nA] = [svc; v1; nA]
   /\ resolve cross_table [svc; v1; svc] [nB] [svc; v1; nA] = None.
 Proof. exact cross_package_refuted. Qed.
-Print Assumptions C05_scope_cross_package_refuted.
+Print Assumptions C05_scope_cross_package_previous_refuted.
+
+(* on the first witness the printer now writes the absolute name, which resolves *)
+Theorem C05_scope_shadow_now_absolute :
+  context_ref_name_safe shadow_table pkg_w [nA] pkg_w [nB] = {| pn_abs := true; pn_name := pkg_w ++ [nB] |}
+  /\ resolve_printed shadow_table pkg_w [nA] (context_ref_name_safe shadow_table pkg_w [nA] pkg_w [nB]) = Some (pkg_w ++ [nB]).
+Proof. exact shadow_now_absolute. Qed.
+Print Assumptions C05_scope_shadow_now_absolute.
 
 (* the printed name is never empty (the snapshot printed an empty type for self references) *)
-Theorem C05_scope_never_empty : forall ctx_pkg ctx ref_pkg ref, ref <> [] ->
-  context_ref_name ctx_pkg ctx ref_pkg ref <> [].
-Proof. exact repaired_never_empty. Qed.
+Theorem C05_scope_never_empty : forall st ctx_pkg ctx ref_pkg ref, ref <> [] ->
+  pn_name (context_ref_name_safe st ctx_pkg ctx ref_pkg ref) <> [].
+Proof. exact safe_never_empty. Qed.
 Print Assumptions C05_scope_never_empty.
 
 Theorem C05_scope_snapshot_refuted : forall pkg a, context_ref_name_snapshot pkg [a] pkg [a] = [].
@@ -130,12 +144,16 @@ Qed.
 Example C05_example_scope :
   let nC := [67] in
   let st := {| st_types := [pkg_w ++ [nA]; pkg_w ++ [nA; nB]; pkg_w ++ [nA; nC]]; st_pkgs := [pkg_w] |} in
-  context_ref_name pkg_w [nA; nB] pkg_w [nA; nC] = [nC]
+  context_ref_name_safe st pkg_w [nA; nB] pkg_w [nA; nC] = {| pn_abs := false; pn_name := [nC] |}
+  /\ wf_target st pkg_w pkg_w [nA; nC]
   /\ wf_ref st pkg_w [nA; nC] /\ no_capture st pkg_w [nA; nB] [nA; nC]
   /\ resolve st pkg_w [nA; nB] [nC] = Some (pkg_w ++ [nA; nC]).
 Proof.
-  cbv zeta. split; [vm_compute; reflexivity|]. split.
-  - intros k Hk. destruct k as [|[|[|k]]]; cbn in Hk; try lia; vm_compute; reflexivity.
+  cbv zeta.
+  assert (Hw : wf_ref {| st_types := [pkg_w ++ [nA]; pkg_w ++ [nA; nB]; pkg_w ++ [nA; [67]]]; st_pkgs := [pkg_w] |} pkg_w [nA; [67]]).
+  { intros k Hk. destruct k as [|[|[|k]]]; cbn in Hk; try lia; vm_compute; reflexivity. }
+  split; [vm_compute; reflexivity|]. split; [split; [intros _; exact Hw|intro E; vm_compute in E; discriminate]|]. split.
+  - exact Hw.
   - split; [|vm_compute; reflexivity].
     intros k Hk. vm_compute in Hk. destruct k as [|[|[|k]]]; try lia. vm_compute. reflexivity.
 Qed.
